@@ -14,7 +14,8 @@ inductive Phase (env : Env) : Sim → Sim → Prop where
   | updates {s : Sim} {log : List Event} : Phase env s (vehicleUpdates env ⟨s, log⟩).sim
   | tick {s : Sim} : Phase env s s.tick
   | arrival {s s' : Sim} {r : Request} :
-      s.request? r.id = none → r.dispVeh = none → s.addRequest env r = .ok s' → Phase env s s'
+      s.request? r.id = none → (∀ veh ∈ s.vehicles, ∀ route, veh.act ≠ .dispatchTrip r.id route) →
+      r.dispVeh = none → s.addRequest env r = .ok s' → Phase env s s'
   | cancel {s s' : Sim} {i : RequestId} : s.removeRequest env i = .ok s' → Phase env s s'
 
 /-- reachability by any finite sequence of phases -/
@@ -25,7 +26,8 @@ inductive Reachable (env : Env) (s0 : Sim) : Sim → Prop where
 /-- an invariant of whole runs -/
 structure RunInv (env : Env) (I : Sim → Prop) : Prop extends StepInv env I where
   tick : ∀ s : Sim, I s → I s.tick
-  arrival : ∀ {s s' : Sim} {r : Request}, s.WF → I s → s.request? r.id = none → r.dispVeh = none →
+  arrival : ∀ {s s' : Sim} {r : Request}, s.WF → I s → s.request? r.id = none →
+    (∀ veh ∈ s.vehicles, ∀ route, veh.act ≠ .dispatchTrip r.id route) → r.dispVeh = none →
     s.addRequest env r = .ok s' → I s'
   cancel : ∀ {s s' : Sim} {i : RequestId}, s.WF → I s → s.removeRequest env i = .ok s' → I s'
 
@@ -38,6 +40,34 @@ theorem upsert_fresh {α : Type} {key : α → Nat} {xs : List α} {x : α} (h :
     have := lookup_none h y hy
     simpa using this
   simp [this]
+
+theorem addRequest_fields {env : Env} {s s' : Sim} {r : Request} (hfresh : s.request? r.id = none)
+    (h : s.addRequest env r = .ok s') :
+    s'.vehicles = s.vehicles ∧ s'.stations = s.stations ∧ s'.bases = s.bases ∧ s'.time = s.time ∧ s'.dt = s.dt ∧
+    s'.requests = s.requests ++ [r] ∧ (∀ i, i ≠ r.id → s'.request? i = s.request? i) ∧ s'.request? r.id = some r := by
+  unfold Sim.addRequest at h
+  split at h
+  · cases h
+  · cases h
+    refine ⟨rfl, rfl, rfl, rfl, rfl, upsert_fresh hfresh, ?_, ?_⟩
+    · intro i hi
+      unfold Sim.request?
+      simp only
+      rw [upsert_fresh hfresh]
+      unfold lookup
+      rw [List.find?_append]
+      cases hfind : List.find? (fun x => x.id == i) s.requests with
+      | some x => simp
+      | none =>
+        have : (r.id == i) = false := by simpa using (Ne.symm hi)
+        simp [this]
+    · unfold Sim.request?
+      simp only
+      rw [upsert_fresh hfresh]
+      unfold lookup
+      rw [List.find?_append]
+      have : List.find? (fun x => x.id == r.id) s.requests = none := hfresh
+      simp [this]
 
 theorem addRequest_wf {env : Env} {s s' : Sim} {r : Request} (hwf : s.WF) (hfresh : s.request? r.id = none)
     (h : s.addRequest env r = .ok s') : s'.WF := by
@@ -62,12 +92,12 @@ theorem addRequest_wf {env : Env} {s s' : Sim} {r : Request} (hwf : s.WF) (hfres
     exact hnot ha
 
 theorem phase_wf {env : Env} {s s' : Sim} (hwf : s.WF) (h : Phase env s s') : s'.WF := by
-  have hTrue : StepInv env (fun _ => True) := ⟨fun _ _ _ => trivial, fun _ _ _ _ => trivial, fun _ _ _ _ => trivial⟩
+  have hTrue : StepInv env (fun _ => True) := ⟨fun _ _ _ => trivial, fun _ _ _ _ _ => trivial, fun _ _ _ _ => trivial⟩
   cases h with
   | instructions hn h => exact (applyInstructions_inv hTrue hn hwf trivial h).2
   | updates => exact (vehicleUpdates_inv hTrue (w := ⟨s, _⟩) hwf trivial).2
   | tick => exact ⟨hwf.veh, hwf.stn, hwf.base, hwf.req, hwf.plugs⟩
-  | arrival hf _ h => exact addRequest_wf hwf hf h
+  | arrival hf _ _ h => exact addRequest_wf hwf hf h
   | cancel h => exact (Sim.removeRequest_sameIds h).wf hwf
 
 theorem reachable_wf {env : Env} {s0 s : Sim} (hwf : s0.WF) (h : Reachable env s0 s) : s.WF := by
@@ -86,7 +116,7 @@ theorem reachable_inv {env : Env} {I : Sim → Prop} (hI : RunInv env I) {s0 s :
     | instructions hn h => exact (applyInstructions_inv hI.toStepInv hn hwf' ih h).1
     | updates => exact (vehicleUpdates_inv hI.toStepInv (w := ⟨_, _⟩) hwf' ih).1
     | tick => exact hI.tick _ ih
-    | arrival hf hd h => exact hI.arrival hwf' ih hf hd h
+    | arrival hf hu hd h => exact hI.arrival hwf' ih hf hu hd h
     | cancel h => exact hI.cancel hwf' ih h
 
 end Hive
